@@ -562,6 +562,169 @@ def execute_text(ops, bins, tag='c14.text'):
     return impl, model, raw, phases, (log if rc != 0 else '')
 
 
+# ------------------------------------------------------------------ histories (install / remove / re-install / Restore / UnpatchAll)
+
+def gen_hist_ops(fs, tier, rng):
+    """c14.hist ops over real functions (T) and private executable copies (M, possibly straddling a page end or unmapped
+    in the middle of the history)."""
+    by = {f['name']: f for f in fs}
+    cands = [by[PKG + f'zzC14T{k:02d}'] for k in range(N_T) if PKG + f'zzC14T{k:02d}' in by]
+    cands = [f for f in cands if f['cls'] == 'nil' and f['dist'] >= 32 and not f['first'].startswith('90') and f['gsize'] <= f['dist']]
+    small = [f for f in cands if f['dist'] <= 256]
+    pages = sorted({f['addr'] // 4096 for f in cands})
+
+    def T(f):
+        return f"T:{pages.index(f['addr'] // 4096)}:{f['addr'] % 4096}:{f['gsize']}:{f['first']}:{f['name']}"
+
+    def M(f, off):
+        return f"M:{off}:64:{f['first']}:{f['name']}"
+    ops = []
+
+    def hist(targets, steps):
+        ops.append('c14.hist ' + ','.join(targets) + ' | ' + ' '.join(steps))
+    a, b, c, d = cands[3], cands[7], cands[11], small[2]
+    # removal of everything while one target lives in memory that is gone (unloaded code); first with a single healthy one
+    hist([T(a), M(d, 100)], ['patch.0', 'apply.0', 'patch.1', 'apply.1', 'unmap.1', 'unpatch.1', 'unpatchfn.1', 'unpatch.0'])
+    hist([T(a), T(b), T(c), M(d, 2048)], ['patch.0', 'apply.0', 'patch.1', 'apply.1', 'patch.2', 'apply.2', 'patch.3', 'apply.3', 'unmap.3', 'unpatchall'])
+    hist([T(a), T(b), M(d, 64)], ['patch.0', 'apply.0', 'patch.1', 'apply.1', 'patch.2', 'apply.2', 'unpatchall'])
+    # Restore, re-patch of a patched target, Unpatch twice, UnpatchAll with nothing / twice
+    hist([T(a)], ['patch.0', 'apply.0', 'unpatch.0', 'restore.0', 'unpatch.0', 'unpatch.0', 'restore.0', 'unpatchall', 'unpatchall'])
+    hist([T(a), T(b)], ['patch.0', 'apply.0', 'patch.0', 'apply.0', 'patch.1', 'patch.1', 'apply.1', 'unpatchfn.0', 'unpatchfn.0', 'restore.0', 'unpatchall', 'unpatch.0'])
+    hist([T(a)], ['unpatchall', 'apply.0', 'restore.0', 'unpatchfn.0', 'patch.0', 'unpatch.0', 'restore.0', 'apply.0', 'apply.0', 'unpatchall'])
+    # an entry whose 13 bytes straddle a page end (possible only for code that is not 16-byte aligned: a private copy)
+    for off in (4083, 4084, 4090, 4095):
+        hist([M(d, off), T(a)], ['patch.0', 'apply.0', 'patch.1', 'apply.1', 'unpatch.0', 'restore.0', 'unpatchall'])
+    words = ['patch', 'apply', 'apply', 'unpatch', 'restore', 'unpatchfn', 'patch']
+    n = 40 if tier == 'quick' else 600
+    for _ in range(n):
+        k = 1 + rng.below(4)
+        tg, used = [], set()
+        for i in range(k):
+            if rng.below(5) == 0:
+                tg.append(M(small[rng.below(len(small))], rng.choice([0, 32, 100, 2048, 4000, 4064, 4083, 4084, 4090, 4095])))
+            else:
+                f = cands[rng.below(len(cands))]
+                while f['name'] in used:
+                    f = cands[rng.below(len(cands))]
+                used.add(f['name'])
+                tg.append(T(f))
+        steps = []
+        unmapped = set()
+        for _ in range(4 + rng.below(14)):
+            r = rng.below(20)
+            if r == 0:
+                steps.append('unpatchall')
+            elif r == 1 and any(t.startswith('M') for t in tg):
+                i = rng.choice([i for i, t in enumerate(tg) if t.startswith('M')])
+                steps.append(f'unmap.{i}')
+                unmapped.add(i)
+            else:
+                i = rng.below(k)
+                w = rng.choice(words)
+                if i in unmapped and w == 'patch':
+                    w = 'unpatch'        # Patch would read the entry bytes of unmapped memory: a crash by construction, not goom's doing
+                steps.append(f'{w}.{i}')
+        steps.append('unpatchall')
+        hist(tg, steps)
+    return ops
+
+
+def hist_groups(calls, label):
+    """[(addr,len,prot,res)] -> ['(lab:prot=res,...)'] one group per WriteTo: a group ends when a write-enabling call follows a closing one"""
+    groups, cur, closing = [], [], False
+    for a, ln, prot, res in calls:
+        opening = prot in ('rwx', 'rw')
+        if cur and opening and closing and prot == 'rwx':
+            groups.append(cur)
+            cur, closing = [], False
+        cur.append(f'{label(a)}:{prot}={res}')
+        if prot == 'rx':
+            closing = True
+        # a refused rwx followed by rw (fall-back) stays in the same group
+    if cur:
+        groups.append(cur)
+    return ['(' + ','.join(g) + ')' for g in groups]
+
+
+def execute_hist(ops, bins, fs, tag='c14.hist'):
+    """-> (impl lines, model lines, per-op list of oracle findings)"""
+    ops_path = os.path.join(C.BUILD, f'{tag}.ops')
+    open(ops_path, 'w').write('\n'.join(ops) + '\n')
+    outp = os.path.join(C.BUILD, f'{tag}.impl')
+    rc, log, st = run_strace(bins['text'], 'TestVerifC14Text', ops_path, outp, tag)
+    raw = C.read_indexed(outp, len(ops))
+    if rc != 0 and not any(raw):
+        raise C.Infra(f'probe c14-text (histories) failed rc={rc}:\n{log[-2000:]}')
+    per = parse_strace(st)
+    exe, err = C.build_driver()
+    model = C.run_driver(exe, ops_path, os.path.join(C.BUILD, f'{tag}.model')) if exe else None
+    by = {f['name']: f for f in fs}
+    impl, why = [None] * len(ops), [None] * len(ops)
+    for i, op in enumerate(ops):
+        if raw[i] is None:
+            why[i] = 'no observation: the probe died during this history'
+            continue
+        cmp_part, _, extra = raw[i].partition(' | ')
+        tgs = op.split()[1].split(',')
+        steps = op.split()[3:]
+        mb = {}
+        for tok in extra.split():
+            if tok.startswith('mbases=') and len(tok) > 7:
+                mb = {int(x.split(':')[0]): int(x.split(':')[1], 16) for x in tok[7:].split(',')}
+        tpages = {}      # real page -> label
+        allowed = set()
+        for k, t in enumerate(tgs):
+            f = t.split(':')
+            if f[0] == 'T':
+                pg = by[f[-1]]['addr'] // 4096
+                tpages[pg] = f't{f[1]}'
+                allowed.add(pg)
+            else:
+                for j in range(3):
+                    tpages[mb[k] // 4096 + j] = f'm{k}.{j}'
+                e = mb[k] + 4096 + int(f[1])
+                allowed |= pages_of(e, 13)
+        label = lambda a: tpages.get(a // 4096, f'?{a:#x}')
+        out_steps = []
+        ex = {int(t.split(':')[0]): dict(kv.split('=') for kv in t.split(':', 1)[1].split(',')) for t in extra.split() if t[0].isdigit()}
+        for sn, tok in enumerate(cmp_part.split()):
+            stp, _, rest = tok.partition('=')
+            res, _, vec = rest.partition('{')
+            cs = per.get(64 * i + sn, [])
+            gs = hist_groups(cs, label)
+            if stp == 'unpatchall':
+                gs = sorted(gs)
+            out_steps.append(f'{stp}={res}[{"".join(gs)}]{{{vec}')
+            # ---- the property on the implementation, step by step
+            if why[i]:
+                continue
+            e = ex.get(sn, {})
+            if e.get('img') != 'true':
+                why[i] = f'after step {sn} ({stp}) the protections of the executable image differ from before: a text page is left writable or not executable'
+            elif int(e.get('stray', '0')):
+                why[i] = f'after step {sn} ({stp}) {e["stray"]} byte(s) outside the 13 entry bytes of the targets changed'
+            elif any(ch != 'x' for ch in e.get('mperm', '').replace('/', '')):
+                why[i] = f'after step {sn} ({stp}) a page of mapped target code is {e["mperm"]}, not r-x'
+            else:
+                for a, ln, prot, r in cs:
+                    if r == '0' and 'x' not in prot:
+                        why[i] = f'step {sn} ({stp}): mprotect({label(a)}, {prot}) drops the execute bit'
+                    elif a // 4096 not in allowed and not (a // 4096 in tpages):
+                        why[i] = f'step {sn} ({stp}): mprotect on a page that holds no entry byte of any target ({a:#x})'
+            lens = vec.rstrip('}').split(';')[1] if ';' in vec else ''
+            if not why[i] and any(x not in ('-', '13/13') for x in lens.split(',') if x):
+                why[i] = f'after step {sn} ({stp}) a guard holds {lens} saved/jump bytes, wanted 13/13'
+        line = ' '.join(out_steps)
+        # UnpatchAll visits the map in an unspecified order: when the model says the outcome is not determined, compare up to there
+        if model and model[i] and model[i].endswith('=panic[nondet]'):
+            nst = len(model[i].split())
+            toks = line.split()
+            if len(toks) >= nst and toks[nst - 1].startswith('unpatchall=panic'):
+                line = ' '.join(toks[:nst - 1] + ['unpatchall=panic[nondet]'])
+        impl[i] = line
+    return impl, model, raw, why, (log if rc != 0 else '')
+
+
 def pages_crossed(op):
     _, off, hx, perms = op.split()
     n = 0 if hx == '-' else len(hx) // 2
@@ -639,15 +802,23 @@ def run(tier):
         out.violation(f'{op[:160]}: {why}', {'kind': 'impl-oracle', 'lane': 'text', 'ops': [op], 'observed': traw[i] if i >= 0 else head, 'why': why,
                                              'how': 'python3 check.py C14 --replay <this file>'})
     bad += tbad
+    # history lane
+    hops = gen_hist_ops(fs, tier, rng)
+    himpl, hmodel, hraw, hwhy, hlog = execute_hist(hops, bins, fs)
+    hbad = [(i, op, hwhy[i]) for i, op in enumerate(hops) if hwhy[i]]
+    for i, op, why in hbad[:3]:
+        out.violation(f'{op[:200]}: {why}', {'kind': 'impl-oracle', 'lane': 'history', 'ops': [op], 'observed': hraw[i], 'why': why,
+                                             'how': 'python3 check.py C14 --replay <this file>'})
+    bad += hbad
     # 2. correspondence
     sp = os.path.join(C.BUILD, 'c14.surveygen.ops')
     open(sp, 'w').write('\n'.join(sops) + '\n')
     exe, _ = C.build_driver()
     smodel = C.run_driver(exe, sp, os.path.join(C.BUILD, 'c14.surveygen.model')) if exe else None
     n_scratch = len(ops)
-    ops = ops + tops + sops
-    impl = impl + timpl + simpl
-    model = (model + (tmodel or [None] * len(tops)) + (smodel or [None] * len(sops))) if model is not None else None
+    ops = ops + tops + hops + sops
+    impl = impl + timpl + himpl + simpl
+    model = (model + (tmodel or [None] * len(tops)) + (hmodel or [None] * len(hops)) + (smodel or [None] * len(sops))) if model is not None else None
     diffs = C.diff_streams(ops, impl, model) if model is not None else []
     if model is None:
         proof['failed'].append(('goomdrv', 'driver does not build: ' + str(perr)[-500:]))
@@ -667,7 +838,12 @@ def run(tier):
             'pages crossed': {}, 'length buckets': {}, 'initial perms (non r-x pages present)': 0, 'outcomes (impl)': {},
             'gen_modules_changed_this_run': changed, 'text lane: survey of the test binary': sv,
             'text lane ops': {k: sum(1 for o in tops if o.startswith(k)) for k in ('c14.install', 'c14.gen', 'c14.tramp')},
-            'text lane outcomes': {}}
+            'text lane outcomes': {}, 'history lane': {'histories': len(hops), 'steps': sum(len(o.split()) - 3 for o in hops),
+                                                        'with a private code mapping (M target)': sum(1 for o in hops if 'M:' in o),
+                                                        'with an unmap step': sum(1 for o in hops if ' unmap.' in o),
+                                                        'entry straddling a page end': sum(1 for o in hops if any(t.startswith('M:') and int(t.split(':')[1]) > 4083 for t in o.split()[1].split(','))),
+                                                        'step kinds': {w: sum(o.count(' ' + w) for o in hops) for w in ('patch', 'apply', 'unpatch.', 'restore', 'unpatchfn', 'unpatchall', 'unmap')},
+                                                        'steps that panicked (impl)': sum((l or '').count('=panic') for l in himpl)}}
     for i, o in enumerate(tops):
         r = (timpl[i] or 'none').split()[0].split(':')[0]
         dist['text lane outcomes'][r] = dist['text lane outcomes'].get(r, 0) + 1
